@@ -156,6 +156,22 @@ def mk(shape, lens):
     return Surfaces(shape, lens)
 
 
+class SurfacesTokens(Surfaces):
+    """Surfaces with the tags solver-chosen from spellings that differ in case, separators and word segmentation."""
+
+    def __init__(self, shape):
+        Surfaces.__init__(self, shape, (1,) * sum(shape))
+        self.name = "surfaces_tokens/ops=%s" % "+".join(map(str, shape))
+        self.bounds = {"tags_per_operation": list(shape), "tags": "every tuple over %r" % (c07.TAG_TOKENS,)}
+
+    def make_inputs(self, e):
+        return {"tag%d" % i: c07.TAG_TOKENS[e.choose(len(c07.TAG_TOKENS), "tok%d" % i)] for i in range(len(self.lens))}
+
+
+def mk_tokens(shape):
+    return SurfacesTokens(shape)
+
+
 def specs(tier):
     q = tier == "quick"
     out = []
@@ -166,6 +182,8 @@ def specs(tier):
                          ((1, 1, 1), [(1, 1, 1)] if q else [(1, 1, 1), (2, 1, 1)])]:
         for lens in lenss:
             out.append((MOD, "mk", (shape, lens)))
+    out.append((MOD, "mk_tokens", ((1, 1),)))
+    out.append((MOD, "mk_tokens", ((2,),)))
     return out
 
 
@@ -202,7 +220,7 @@ def replay(path):
     parts = v["obligation"].split("/")
     shape = tuple(int(x) for x in parts[1].split("=")[1].split("+"))
     lens = [len(v["inputs"][k]) for k in sorted(v["inputs"])]
-    ob = Surfaces(shape, lens)
+    ob = SurfacesTokens(shape) if parts[0] == "surfaces_tokens" else Surfaces(shape, lens)
     r = ob.run_real(v["inputs"])
     ok = bool(ob.prop(v["inputs"], r))
     print("replay %s inputs=%r -> %r holds=%s" % (v["obligation"], v["inputs"], ob.normalise(r), ok))
